@@ -63,7 +63,8 @@ Qed.
 (* ------------------------------------------------------------------ validators never panic behind the guards *)
 
 Definition guards_all (F : facts) : bool :=
-  f_denom_guard F && f_amount_guard F && f_evm_denom_guard F && f_erc20_nul_guard F && f_addr_conv_total F.
+  f_denom_guard F && f_amount_guard F && f_evm_denom_guard F && f_erc20_nul_guard F && f_addr_conv_total F &&
+  f_pair_validation_total F.
 
 Lemma wf_bits_no_overflow : forall v, (0 <=? v) = true -> (v <? two256) = true -> int_from_big_panics v = false.
 Proof. intros v A B. apply wf_uint_no_overflow. rewrite A, B. reflexivity. Qed.
@@ -72,9 +73,10 @@ Lemma validate_no_panic : forall F m args,
   guards_all F = true -> forallb arg_wf args = true -> validate F m args <> VPanic.
 Proof.
   intros F m args G W. unfold guards_all in G.
+  apply andb_prop in G as [G G6].
   apply andb_prop in G as [G G5]. apply andb_prop in G as [G G4]. apply andb_prop in G as [G G3].
   apply andb_prop in G as [G1 G2].
-  unfold validate, addr_conv_panics. rewrite G1, G2, G3, G4, G5. cbn [negb andb]. rewrite ?andb_true_l.
+  unfold validate, addr_conv_panics, oracle_pair. rewrite G1, G2, G3, G4, G5, G6. cbn [negb andb]. rewrite ?andb_true_l.
   destruct m; repeat dmatch; try discriminate; intro X; clear X; subst; simpl in W;
     repeat match goal with
            | H : _ && _ = true |- _ => apply andb_prop in H; destruct H
@@ -364,7 +366,8 @@ Section RunProofs.
     apply run_pc_panic in H.
     pose proof (oog_deferred_of F p PO) as OD.
     unfold panic_ok in PO. repeat (apply andb_prop in PO as [PO ?]).
-    destruct H as [H|[H|[H|[H|[mf [args [S [U V]]]]]]]]; try congruence.
+    destruct H as [H|[H|[H|[H|[mf [args [S [U V]]]]]]]];
+      try (match goal with A : ?x = true, B : ?x = false |- _ => rewrite A in B; discriminate B end).
     unfold input_wf in W. rewrite U in W.
     apply (validate_no_panic F (mf_id mf) args); [|assumption|assumption].
     unfold guards_all. repeat (apply andb_true_intro; split); assumption.
